@@ -62,7 +62,13 @@ impl Ctx {
     pub fn note(&mut self, what: impl Into<String>, n: u64) {
         self.notes.push((what.into(), n));
     }
-    pub fn violation(&mut self, sig: impl Into<String>, detail: impl Into<String>, replay: Value, size: usize) {
+    pub fn violation(
+        &mut self,
+        sig: impl Into<String>,
+        detail: impl Into<String>,
+        replay: Value,
+        size: usize,
+    ) {
         self.violations.push(Violation {
             sig: sig.into(),
             detail: detail.into(),
@@ -179,7 +185,8 @@ pub fn explore<D: Driver>(
         }
     }
     let mut depth = 0u32;
-    let sample_every = |n: usize| -> usize { ((seed as usize) % n.max(1)).min(n.saturating_sub(1)) };
+    let sample_every =
+        |n: usize| -> usize { ((seed as usize) % n.max(1)).min(n.saturating_sub(1)) };
     loop {
         if frontier.is_empty() {
             break;
@@ -189,10 +196,14 @@ pub fn explore<D: Driver>(
         stats.max_depth = depth;
         // samples: first and a seed-chosen state of each level
         if stats.samples.len() < 12 {
-            stats.samples.push(json!({"depth": depth, "state": d.describe(&frontier[0])}));
+            stats
+                .samples
+                .push(json!({"depth": depth, "state": d.describe(&frontier[0])}));
             let i = sample_every(frontier.len());
             if i != 0 {
-                stats.samples.push(json!({"depth": depth, "state": d.describe(&frontier[i])}));
+                stats
+                    .samples
+                    .push(json!({"depth": depth, "state": d.describe(&frontier[i])}));
             }
         }
         // evaluate the check on every state of this level (parallel)
@@ -219,7 +230,10 @@ pub fn explore<D: Driver>(
             break;
         }
         // expand
-        let succs: Vec<Vec<D::State>> = frontier.par_iter().map(|s| d.successors(s, depth)).collect();
+        let succs: Vec<Vec<D::State>> = frontier
+            .par_iter()
+            .map(|s| d.successors(s, depth))
+            .collect();
         let mut next = vec![];
         for v in succs {
             stats.transitions += v.len() as u64;
@@ -254,7 +268,10 @@ pub fn explore<D: Driver>(
         .violations
         .into_iter()
         .map(|(_, (n, mut v))| {
-            v.detail = format!("{} ({} states fail this way; smallest witness shown)", v.detail, n);
+            v.detail = format!(
+                "{} ({} states fail this way; smallest witness shown)",
+                v.detail, n
+            );
             v
         })
         .collect();
@@ -303,7 +320,10 @@ pub fn sweep<T: Sync>(
         bound_completed: if capped { 0 } else { 1 },
         exhaustive: !capped,
         cap_hit: if capped {
-            Some(format!("wall cap {wall:?} hit after {n} of {} cases", cases.len()))
+            Some(format!(
+                "wall cap {wall:?} hit after {n} of {} cases",
+                cases.len()
+            ))
         } else {
             None
         },
@@ -317,7 +337,10 @@ pub fn sweep<T: Sync>(
             .violations
             .into_iter()
             .map(|(_, (n, mut v))| {
-                v.detail = format!("{} ({} cases fail this way; smallest witness shown)", v.detail, n);
+                v.detail = format!(
+                    "{} ({} cases fail this way; smallest witness shown)",
+                    v.detail, n
+                );
                 v
             })
             .collect(),
@@ -408,12 +431,16 @@ impl Report {
         let mut listed: BTreeMap<String, (usize, String)> = BTreeMap::new();
         for d in &self.drivers {
             for v in &d.violations {
-                let m = known
-                    .iter()
-                    .find(|k| k.property == self.property && k.status == "known" && v.sig.starts_with(&k.signature));
+                let m = known.iter().find(|k| {
+                    k.property == self.property
+                        && k.status == "known"
+                        && v.sig.starts_with(&k.signature)
+                });
                 match m {
                     Some(k) => {
-                        let e = listed.entry(k.signature.clone()).or_insert((0, k.what.clone()));
+                        let e = listed
+                            .entry(k.signature.clone())
+                            .or_insert((0, k.what.clone()));
                         e.0 += 1;
                     }
                     None => unlisted.push(v),
@@ -443,7 +470,11 @@ impl Report {
                 });
                 let _ = std::fs::write(&path, serde_json::to_string_pretty(&body).unwrap());
             }
-            println!("VIOLATION property={} replay={}", self.property, path.display());
+            println!(
+                "VIOLATION property={} replay={}",
+                self.property,
+                path.display()
+            );
             eprintln!("  signature: {}\n  {}", v.sig, v.detail);
         }
         // evidence
@@ -494,7 +525,10 @@ impl Report {
         coverage.insert("drivers".into(), json!(per_driver));
         coverage.insert(
             "known_findings_matched".into(),
-            json!(listed.iter().map(|(k, (n, w))| json!({"signature": k, "count": n, "what": w})).collect::<Vec<_>>()),
+            json!(listed
+                .iter()
+                .map(|(k, (n, w))| json!({"signature": k, "count": n, "what": w}))
+                .collect::<Vec<_>>()),
         );
         for (k, v) in &self.extra {
             if k != "rule" {
@@ -515,7 +549,10 @@ impl Report {
         let _ = std::fs::create_dir_all(&evdir);
         let evpath = evdir.join(format!("{}.json", self.property));
         if let Err(e) = std::fs::write(&evpath, serde_json::to_string_pretty(&ev).unwrap()) {
-            eprintln!("machinery error: cannot write evidence {}: {e}", evpath.display());
+            eprintln!(
+                "machinery error: cannot write evidence {}: {e}",
+                evpath.display()
+            );
             return 2;
         }
         eprintln!(
@@ -563,10 +600,18 @@ pub struct CtxOut {
 impl CtxOut {
     pub fn from_ctx(c: Ctx) -> CtxOut {
         CtxOut {
-            violations: c.violations.into_iter().map(|v| (v.sig, v.detail, v.replay, v.size)).collect(),
+            violations: c
+                .violations
+                .into_iter()
+                .map(|v| (v.sig, v.detail, v.replay, v.size))
+                .collect(),
             outcomes: c.outcomes,
             executed: c.executed,
-            excluded: c.excluded.into_iter().map(|(k, n)| (k.to_string(), n)).collect(),
+            excluded: c
+                .excluded
+                .into_iter()
+                .map(|(k, n)| (k.to_string(), n))
+                .collect(),
             notes: c.notes,
         }
     }
@@ -734,8 +779,13 @@ pub fn isolated_sweep(
             let st = &rest[culprit.min(rest.len() - 1)];
             let st_json: Value = serde_json::from_str(st).unwrap_or(Value::Null);
             ctx.violation(
-                format!("{crash_prefix}/{}", if timed_out { "no-termination" } else { "crash" }),
-                format!("{how} while evaluating this state (stack overflow, abort or endless loop)"),
+                format!(
+                    "{crash_prefix}/{}",
+                    if timed_out { "no-termination" } else { "crash" }
+                ),
+                format!(
+                    "{how} while evaluating this state (stack overflow, abort or endless loop)"
+                ),
                 json!({"check": worker_name, "state": st_json}),
                 st.len(),
             );
@@ -755,7 +805,10 @@ pub fn isolated_sweep(
         bound_completed: if capped { 0 } else { 1 },
         exhaustive: !capped,
         cap_hit: if capped {
-            Some(format!("wall cap {wall:?} hit after {n} of {} states", states.len()))
+            Some(format!(
+                "wall cap {wall:?} hit after {n} of {} states",
+                states.len()
+            ))
         } else {
             None
         },
@@ -764,12 +817,19 @@ pub fn isolated_sweep(
         per_depth: vec![n],
         excluded: sh.excluded,
         notes: sh.notes,
-        samples: states.iter().take(3).filter_map(|s| serde_json::from_str(s).ok()).collect(),
+        samples: states
+            .iter()
+            .take(3)
+            .filter_map(|s| serde_json::from_str(s).ok())
+            .collect(),
         violations: sh
             .violations
             .into_iter()
             .map(|(_, (n, mut v))| {
-                v.detail = format!("{} ({} states fail this way; smallest witness shown)", v.detail, n);
+                v.detail = format!(
+                    "{} ({} states fail this way; smallest witness shown)",
+                    v.detail, n
+                );
                 v
             })
             .collect(),
@@ -778,7 +838,11 @@ pub fn isolated_sweep(
 }
 
 /// enumerate all states of a driver up to `max_depth` without evaluating anything
-pub fn enumerate<D: Driver>(d: &D, max_depth: u32, max_states: usize) -> (Vec<(u32, D::State)>, u64, bool) {
+pub fn enumerate<D: Driver>(
+    d: &D,
+    max_depth: u32,
+    max_states: usize,
+) -> (Vec<(u32, D::State)>, u64, bool) {
     let mut seen: HashSet<u128> = HashSet::new();
     let mut all = vec![];
     let mut frontier: Vec<D::State> = vec![];
@@ -796,7 +860,10 @@ pub fn enumerate<D: Driver>(d: &D, max_depth: u32, max_states: usize) -> (Vec<(u
         if depth >= max_depth || frontier.is_empty() {
             break;
         }
-        let succs: Vec<Vec<D::State>> = frontier.par_iter().map(|s| d.successors(s, depth)).collect();
+        let succs: Vec<Vec<D::State>> = frontier
+            .par_iter()
+            .map(|s| d.successors(s, depth))
+            .collect();
         let mut next = vec![];
         for v in succs {
             transitions += v.len() as u64;
